@@ -34,7 +34,13 @@ TRUSTED = [
     'coq/C16/Model.v: hand model of Model.__call__/with_prefix/CompositeModel/PolynomialModel.__init__ '
     '(parameter-name sets, prefix stripping, sum of parts), tied by correspondence',
     'scipp broadcasting is pointwise; in-place ops (*=, /=, out=) are modelled by their value',
-    'coq/Sem/QInst.v + SemExt.qln: rational approximations of exp/sqrt/ln (correspondence only)',
+    'coq/Sem/QInst.v + SemExt.qln/qexp2 + CorrCore.qexp3: rational approximations of exp/sqrt/ln (correspondence only); '
+    'qexp3 returns 0 for arguments below -1000 (true value < 1e-434, ExpCut.exp_cut; float64 exp is 0 below -745.2), '
+    'covered by the absolute floor 1e-300 of the comparison',
+    'coq/C16/CorrCore.v (comparison cmp16 / run16 of the correspondence), coq/C16/RefLeaf.v + RefCorr.v: reference translation '
+    'of the pinned model.py, used by the correspondence ONLY when the current source no longer translates or compiles',
+    'an x array is modelled element by element: one Coq case per element, whatever the layout (0-d, 1-d in any order, 2-d, '
+    'transposed view); the harness checks that the result has the dims and shape of x',
     'tools/harness/c16_impl.py + lib/kcorr.py (exact serialisation of operands/results)',
     'coq-interval (tactics interval/integral, bigint floats) for sqrt(2 ln 2) <= 1.18, exp(-72)/6 and '
     '|int_{-12}^{12} exp(-x^2/2) - sqrt(2 pi)| <= 1e-9; Coquelicot Riemann integral',
@@ -55,7 +61,8 @@ LEVEL_TEXT = ('Proof: for all amplitudes, locations, scales >= 1e-15, fractions,
               'fwhm methods (pseudo-Voigt: every fraction), Lorentzian integral exactly (atan form + limit A), Gaussian and '
               'pseudo-Voigt integrals within 2e-9|A| on >= 12 sigma; prefix stripping, refusal of wrong parameter sets and '
               'composite = sum of parts on a hand model of the object layer validated against the implementation '
-              '(~1e3 element cases, quick tier) inside Coq over exact rationals.')
+              '(~750 element cases, quick tier; x as 0-d / ascending / descending / shuffled 1-d / 2-d / transposed arrays '
+              'reaching 1e3 widths into both tails) inside Coq over exact rationals.')
 LEVEL_NOTE = ('Trusted: Coq kernel; std-lib real-number axioms (sig_forall_dec, sig_not_dec, functional_extensionality_dep, classic); '
               'Coquelicot, coq-interval; py2coq translator; Sem/Val.v + C16/SemExt.v model of scipp/Python primitives; '
               'C16/Model.v object layer (correspondence); rounding handled by tolerance, not by theorem.')
